@@ -1,5 +1,6 @@
 (* C13 — Member, index and slice access agree with the Go value. Theorems only. *)
 From Tpl Require Import Exp.Eval Proofs.AccessSpec.
+From Tpl Require Proofs.AccessEval.
 Open Scope N_scope.
 
 Section C13.
@@ -48,6 +49,110 @@ Proof. exact AccessSpec.slice_ok. Qed.
 Theorem slice_bad : forall l ex lo hi, (lo < 0 \/ hi < lo \/ Z.of_nat (length l + length ex) < hi)%Z ->
   slice_seq l ex lo hi None = Err COther.
 Proof. exact AccessSpec.slice_bad. Qed.
+
+
+(* ---- at the level of the evaluator (Proofs/AccessEval.v): a.name, a['name'], a[i], a[i:j], a[i:j:k] return exactly what
+   get_value / slice_seq return on the value of a; everything that is not there is an error, never a zero value ---- *)
+Section C13Eval.
+Variable methods : N -> bool -> list (str * N).
+Variable call_fn : N -> list value -> fres.
+Variable sc : scope.
+Notation ev := (eval methods call_fn sc).
+Notation get := (get_value methods).
+Notation ev_bound := (AccessEval.ev_bound methods call_fn sc).
+Notation index_name := AccessEval.index_name.
+Notation bad_index_kind := AccessEval.bad_index_kind.
+Notation memberless_kind := AccessEval.memberless_kind.
+Notation not_sliceable := AccessEval.not_sliceable.
+Theorem field_result : forall a p name lg v lg1,
+  ev a lg = (Ok v, lg1) ->
+  ev (EField a p name) lg =
+  (match get name v with Found x => Ok x | Absent => Err CNoSuchValue | Failed => Err COther end, lg1).
+Proof. first [exact (AccessEval.field_result methods call_fn sc) | exact (AccessEval.field_result methods)]. Qed.
+Theorem field_never_invents : forall a p name lg x lg' v lg1,
+  ev (EField a p name) lg = (Ok x, lg') -> ev a lg = (Ok v, lg1) ->
+  get name v = Found x.
+Proof. first [exact (AccessEval.field_never_invents methods call_fn sc) | exact (AccessEval.field_never_invents methods)]. Qed.
+Theorem index_string_agrees_with_field : forall a i lg v lg1 name lg2,
+  ev a lg = (Ok v, lg1) -> ev i lg1 = (Ok (VStr name), lg2) ->
+  ev (EIndex a i) lg =
+  (match get name v with Found x => Ok x | Absent => Err CNoSuchValue | Failed => Err COther end, lg2).
+Proof. first [exact (AccessEval.index_string_agrees_with_field methods call_fn sc) | exact (AccessEval.index_string_agrees_with_field methods)]. Qed.
+Theorem index_literal_same_as_field : forall a t l c p lg v lg1 name,
+  ev a lg = (Ok v, lg1) -> unquote_lit t = Ok name ->
+  ev (EIndex a (ELit LStr t l c)) lg = ev (EField a p name) lg.
+Proof. first [exact (AccessEval.index_literal_same_as_field methods call_fn sc) | exact (AccessEval.index_literal_same_as_field methods)]. Qed.
+Theorem index_int_is_get : forall a i lg v lg1 iv lg2 z,
+  ev a lg = (Ok v, lg1) -> ev i lg1 = (Ok iv, lg2) -> is_int iv = Some z ->
+  ev (EIndex a i) lg =
+  (match get (str_of_Z z) v with Found x => Ok x | Absent => Err CNoSuchValue | Failed => Err COther end, lg2).
+Proof. first [exact (AccessEval.index_int_is_get methods call_fn sc) | exact (AccessEval.index_int_is_get methods)]. Qed.
+Theorem index_bad_kind_is_error : forall a i lg v lg1 iv lg2,
+  ev a lg = (Ok v, lg1) -> ev i lg1 = (Ok iv, lg2) -> bad_index_kind iv ->
+  ev (EIndex a i) lg = (Err COther, lg2).
+Proof. first [exact (AccessEval.index_bad_kind_is_error methods call_fn sc) | exact (AccessEval.index_bad_kind_is_error methods)]. Qed.
+Theorem unsupported_kind_is_error : forall a p name lg v lg1,
+  ev a lg = (Ok v, lg1) -> memberless_kind v ->
+  ev (EField a p name) lg = (Err CNoSuchValue, lg1).
+Proof. first [exact (AccessEval.unsupported_kind_is_error methods call_fn sc) | exact (AccessEval.unsupported_kind_is_error methods)]. Qed.
+Theorem nil_receiver_is_error : forall a p name lg lg1,
+  ev a lg = (Ok VNil, lg1) -> ev (EField a p name) lg = (Err CNoSuchValue, lg1).
+Proof. first [exact (AccessEval.nil_receiver_is_error methods call_fn sc) | exact (AccessEval.nil_receiver_is_error methods)]. Qed.
+Theorem nil_pointer_receiver_is_error : forall a p name lg addr ty lg1,
+  ev a lg = (Ok (VPtr addr ty None), lg1) -> assoc name (methods ty true) = None ->
+  ev (EField a p name) lg = (Err CNoSuchValue, lg1).
+Proof. first [exact (AccessEval.nil_pointer_receiver_is_error methods call_fn sc) | exact (AccessEval.nil_pointer_receiver_is_error methods)]. Qed.
+Theorem unexported_field_is_error : forall a p name lg ty fs x lg1,
+  ev a lg = (Ok (VStruct ty fs), lg1) -> assoc name (methods ty false) = None ->
+  assoc name fs = Some (false, x) ->
+  ev (EField a p name) lg = (Err COther, lg1).
+Proof. first [exact (AccessEval.unexported_field_is_error methods call_fn sc) | exact (AccessEval.unexported_field_is_error methods)]. Qed.
+Theorem slice_result : forall a lo hi lg l ex lg1 s lg2 e lg3,
+  ev a lg = (Ok (VSeq false l ex), lg1) ->
+  ev_bound lo 0%Z lg1 = (Ok s, lg2) -> ev_bound hi (Z.of_nat (length l)) lg2 = (Ok e, lg3) ->
+  ev (ESlice a lo hi) lg = (slice_seq l ex s e None, lg3).
+Proof. first [exact (AccessEval.slice_result methods call_fn sc) | exact (AccessEval.slice_result methods)]. Qed.
+Theorem slice3_result : forall a lo hi cp lg l ex lg1 s lg2 e lg3 m lg4,
+  ev a lg = (Ok (VSeq false l ex), lg1) ->
+  ev_bound lo 0%Z lg1 = (Ok s, lg2) -> ev_bound (Some hi) 0%Z lg2 = (Ok e, lg3) ->
+  ev_bound (Some cp) 0%Z lg3 = (Ok m, lg4) ->
+  ev (ESlice3 a lo hi cp) lg = (slice_seq l ex s e (Some m), lg4).
+Proof. first [exact (AccessEval.slice3_result methods call_fn sc) | exact (AccessEval.slice3_result methods)]. Qed.
+Theorem slice_of_non_slice_is_error : forall a lo hi lg v lg1,
+  ev a lg = (Ok v, lg1) -> not_sliceable v ->
+  ev (ESlice a lo hi) lg = (Err COther, lg1).
+Proof. first [exact (AccessEval.slice_of_non_slice_is_error methods call_fn sc) | exact (AccessEval.slice_of_non_slice_is_error methods)]. Qed.
+Theorem slice3_of_non_slice_is_error : forall a lo hi cp lg v lg1,
+  ev a lg = (Ok v, lg1) -> not_sliceable v ->
+  ev (ESlice3 a lo hi cp) lg = (Err COther, lg1).
+Proof. first [exact (AccessEval.slice3_of_non_slice_is_error methods call_fn sc) | exact (AccessEval.slice3_of_non_slice_is_error methods)]. Qed.
+Theorem slice_of_array_is_error_bounds : forall a lo hi lg l ex lg1 s lg2 e lg3,
+  ev a lg = (Ok (VSeq true l ex), lg1) ->
+  ev_bound lo 0%Z lg1 = (Ok s, lg2) -> ev_bound hi (Z.of_nat (length l)) lg2 = (Ok e, lg3) ->
+  ev (ESlice a lo hi) lg = (Err COther, lg3).
+Proof. first [exact (AccessEval.slice_of_array_is_error_bounds methods call_fn sc) | exact (AccessEval.slice_of_array_is_error_bounds methods)]. Qed.
+Theorem slice_success_is_seq : forall a lo hi lg x lg',
+  ev (ESlice a lo hi) lg = (Ok x, lg') -> exists l ex, x = VSeq false l ex.
+Proof. first [exact (AccessEval.slice_success_is_seq methods call_fn sc) | exact (AccessEval.slice_success_is_seq methods)]. Qed.
+End C13Eval.
+Theorem slice3_ok : forall l ex lo hi m,
+  (0 <= lo)%Z -> (lo <= hi)%Z -> (hi <= m)%Z -> (m <= Z.of_nat (length (l ++ ex)))%Z ->
+  slice_seq l ex lo hi (Some m) =
+  Ok (VSeq false (firstn (Z.to_nat (hi - lo)) (skipn (Z.to_nat lo) (l ++ ex)))
+                 (firstn (Z.to_nat (m - hi)) (skipn (Z.to_nat hi) (l ++ ex)))).
+Proof. exact AccessEval.slice3_ok. Qed.
+Theorem slice3_cap : forall (all : list value) lo hi m,
+  (0 <= lo)%Z -> (lo <= hi)%Z -> (hi <= m)%Z -> (m <= Z.of_nat (length all))%Z ->
+  (length (firstn (Z.to_nat (hi - lo)) (skipn (Z.to_nat lo) all)) +
+   length (firstn (Z.to_nat (m - hi)) (skipn (Z.to_nat hi) all)))%nat = Z.to_nat (m - lo).
+Proof. exact AccessEval.slice3_cap. Qed.
+Theorem slice3_bad : forall l ex lo hi m,
+  (lo < 0 \/ hi < lo \/ m < hi \/ Z.of_nat (length (l ++ ex)) < m)%Z ->
+  slice_seq l ex lo hi (Some m) = Err COther.
+Proof. exact AccessEval.slice3_bad. Qed.
+Print Assumptions field_result.
+Print Assumptions slice3_result.
+Print Assumptions slice3_ok.
 
 Print Assumptions get_struct_field.
 Print Assumptions get_seq_index.
